@@ -245,8 +245,11 @@ func sampleCase(c *h.Check, cases []*h.Case, results []*h.Result) {
 
 func checkC03(c *h.Check) {
 	specs, st := faultSpecs(c.Tier == "thorough", "C03/dag/")
+	specs = append(specs, injectorPairSpecs("C03")...)
+	specs = append(specs, namedResultsSpecs("C03")...)
+	specs = append(specs, longChainSpecs("C03")[1:2]...)
 	cases, results := runSpecs(c, specs, map[string]bool{"error-path": true})
-	stdCoverage(c, cases, results, "all DAGs on <=3 nodes (thorough 4) x {plain,err,cleanup,cleanup+err}^N x result kind x injector shape x variadic last parameters x package-level identifiers colliding with wire's local names (cleanup, cleanup2, err, err2); per program every single failure point and all call histories of length 3 over {ok, fail@k}. Distinct = distinct rendered source; non-trivial = all (every program differs in graph or provider shape).")
+	stdCoverage(c, cases, results, "two injectors of one package with different result shapes (every ordered pair), injectors declared with named results (names among those wire invents), a chain of 17 cleanup providers with failures; all DAGs on <=3 nodes (thorough 4) x {plain,err,cleanup,cleanup+err}^N x result kind x injector shape x variadic last parameters x package-level identifiers colliding with wire's local names (cleanup, cleanup2, err, err2); per program every single failure point and all call histories of length 3 over {ok, fail@k}. Distinct = distinct rendered source; non-trivial = all (every program differs in graph or provider shape).")
 	c.Coverage["explorer"] = map[string]interface{}{"executions": st.Executions, "mode": "full product", "max_depth": st.MaxDepth}
 	sampleCase(c, cases, results)
 	c.Assumptions = append(c.Assumptions, "data independence: identities stand for all argument values", "failure = the provider returns a non-nil error; panics are outside the statement")
@@ -262,8 +265,11 @@ func checkC04(c *h.Check) {
 	}
 	specs = append(specs, cleanupSpecs(c.Tier == "thorough")...)
 	specs = append(specs, manyTwinsSpecs()...) // same-named providers in same-named packages, with cleanups
+	specs = append(specs, injectorPairSpecs("C04")...)
+	specs = append(specs, namedResultsSpecs("C04")...)
+	specs = append(specs, longChainSpecs("C04")...)
 	cases, results := runSpecs(c, specs, map[string]bool{"cleanup": true})
-	stdCoverage(c, cases, results, "the C03 DAG family on the success path plus chains/diamonds/fan-ins/ladders with 4-5 cleanup providers, every subset of cleanup-returning nodes, and each node re-kinded as struct/field/pointer-field/binding/value/parameter step. Distinct = distinct rendered source.")
+	stdCoverage(c, cases, results, "two injectors of one package with different result shapes, injectors declared with named results (names among those wire invents), chains of 17, 18 and 34 cleanup providers; the C03 DAG family on the success path plus chains/diamonds/fan-ins/ladders with 4-5 cleanup providers, every subset of cleanup-returning nodes, and each node re-kinded as struct/field/pointer-field/binding/value/parameter step. Distinct = distinct rendered source.")
 	sampleCase(c, cases, results)
 	c.Assumptions = append(c.Assumptions, "data independence: identities stand for all argument values")
 	if acc := c.Coverage["programs_accepted"].(int); acc < 500 && c.Only == "" && c.NotRun == 0 {
